@@ -396,21 +396,25 @@ def ntp_samples(rng, n):
     return out[:n]
 
 
-def ntp_module(name, rows, wk):
-    """The generated constant module: literal rows Chk(k, wk, t, n, back, t2, n2, m, ref, back32), in groups."""
+def ntp_module(name, rows, wk, ctrl):
+    """The generated constant module: literal rows Chk(k, wk, t, n, back, t2, n2, m, ref, back32), in groups.  Row 0 is the
+    negative control."""
+    def row(k, e):
+        return "  /\\ Chk(%d, %s, %d, %d, %d, %d, %d, %d, %d, %d)" % (
+            k, "TRUE" if wk else "FALSE", e["t"], e["n"], e["back"], e["t2"], e["n2"], e["m"], e["ref"], e["back32"])
     lines = ["---- MODULE %s ----" % name,
-             "(* generated by checks/c20.py: samples recorded from internal/ntp; row N+1 is a deliberately corrupted copy of",
+             "(* generated by checks/c20.py: samples recorded from internal/ntp; row 0 is a deliberately corrupted copy of",
              "   row 1 (negative control: Apalache must report it) *)",
-             "EXTENDS Ntp"]
-    groups = []
+             "EXTENDS Ntp",
+             "Control ==", row(0, ctrl)]
+    groups = ["Control"]
     for g in range(0, len(rows), ROWS_PER_GROUP):
         gname = "G%d" % (g // ROWS_PER_GROUP)
         groups.append(gname)
         lines.append("%s ==" % gname)
         for j, e in enumerate(rows[g:g + ROWS_PER_GROUP]):
-            lines.append("  /\\ Chk(%d, %s, %d, %d, %d, %d, %d, %d, %d, %d)" % (
-                g + j + 1, "TRUE" if wk else "FALSE", e["t"], e["n"], e["back"], e["t2"], e["n2"], e["m"], e["ref"], e["back32"]))
-    lines.append("Init == i \\in 1 .. %d /\\ c \\in Clauses" % len(rows))
+            lines.append(row(g + j + 1, e))
+    lines.append("Init == i \\in 0 .. %d /\\ c \\in Clauses" % len(rows))
     lines.append("Inv == " + " /\\ ".join(groups))
     lines.append("====")
     return "\n".join(lines) + "\n"
@@ -424,10 +428,9 @@ def apalache_rows(ch, tag, rows, timeout=900):
     shutil.copy(os.path.join(ch.spec, "Ntp.tla"), os.path.join(wd, "Ntp.tla"))
     ctrl = dict(rows[0])
     ctrl["n"] += 10000                       # 2.3 us off the recorded value: NearIdeal (and possibly Monotone) must fail
-    allrows = rows + [ctrl]
     name = "NtpRun"
     with open(os.path.join(wd, name + ".tla"), "w") as f:
-        f.write(ntp_module(name, allrows, TAG_WINDOW in vlib.known_tags(ch.pid)))
+        f.write(ntp_module(name, rows, TAG_WINDOW in vlib.known_tags(ch.pid), ctrl))
     env = dict(os.environ)
     env.pop("JAVA_TOOL_OPTIONS", None)
     env["TMPDIR"] = wd
@@ -455,13 +458,13 @@ def apalache_rows(ch, tag, rows, timeout=900):
         s = d["states"][0]
         iv = s["i"]
         iv = int(iv["#bigint"]) if isinstance(iv, dict) else int(iv)
-        found.append((iv - 1, s["c"]))
+        found.append((iv - 1, s["c"]))          # -1 = the control row
     found = sorted(set(found))
-    if p.returncode == 0 or not any(i == len(rows) for i, _ in found):
+    if p.returncode == 0 or (not any(i == -1 for i, _ in found) and len(found) < APALACHE_MAX_ERR):
         # the corrupted control row must always be reported; otherwise Apalache did not evaluate the rows
         raise vlib.Infra("Apalache did not report the negative-control row of chunk %s (exit %d):\n%s" % (tag, p.returncode, out[-2500:]))
     rec["negative_control_hit"] = True
-    res = [(i, c) for i, c in found if i < len(rows)]
+    res = [(i, c) for i, c in found if 0 <= i < len(rows)]
     if len(found) >= APALACHE_MAX_ERR:
         ch.notes.append("chunk %s: Apalache stopped at --max-error=%d counterexamples; more rows may diverge" % (tag, APALACHE_MAX_ERR))
     rec["divergent_rows"] = len(res)
